@@ -1465,6 +1465,20 @@ theorem C02_pq_restart_recovers_indexes (c : R.RCfg) (ops : List R.ROp) :
   let h := R.RInv.run (c := c) R.RInv.init ops
   ⟨R.restartIdx_eq h, h.le, h.syncD⟩
 
+/-- an `Offer` is either refused and stores NOTHING (write index, stored requests and size unchanged: the request can never be
+handed over), or it is accepted and the write is committed — also when the periodic back-up of the size that follows it fails
+(`siFails`): a failing back-up never turns a committed write into a refusal -/
+theorem C02_pq_offer_refused_iff_nothing_stored (c : R.RCfg) (s : R.RSt) (n : Nat) :
+    ((R.offer c s n).2 = false → (R.offer c s n).1.wi = s.wi ∧ (R.offer c s n).1.store = s.store ∧ (R.offer c s n).1.size = s.size) ∧
+    ((R.offer c s n).2 = true → (R.offer c s n).1.wi = s.wi + 1 ∧ (R.offer c s n).1.size = s.size + R.sizeOf c n) := by
+  unfold R.offer
+  simp only []
+  split
+  · exact ⟨fun _ => ⟨rfl, rfl, rfl⟩, fun h => (by cases h)⟩
+  · refine ⟨fun h => (by cases h), fun _ => ?_⟩
+    obtain ⟨a1, _, a3, _⟩ := R.writeInternal_fields c { s with next := s.next + 1 } s.next n
+    exact ⟨a3, a1⟩
+
 /-- soundness of the clause functions the `pqsize` verdict is computed from -/
 theorem C02_check_pqsize_sound (cap sizeBefore el size sumU sumF : Int) (full reqSized : Bool) (nQ : Nat) :
     (R.refusalClause cap sizeBefore el full = true → (full = true ↔ sizeBefore + el > cap)) ∧
